@@ -1,54 +1,68 @@
 #!/bin/bash
 # Self-test of the machinery (run after every engine change):
-#  (a) must-fail: the reverse patch of every "fix:" commit in /repo, and every patch in selftest/mustfail/<id>/*.diff,
-#      applied to a scratch worktree, must make the named property's quick check report a VIOLATION;
+#  (a) must-fail: the reverse patch of every "fix:" commit listed in selftest/fixes.txt, and every patch in
+#      selftest/mustfail/<id>/*.diff, applied to a scratch worktree of /repo's HEAD, must make the named property's
+#      quick check report a VIOLATION;
 #  (b) must-pass: every patch in selftest/harmless/<id>/*.diff must leave the check silent.
-# Usage: selftest/run.sh [filter-regexp]
+# Usage: selftest/run.sh [filter-regexp] [parallel-jobs]
+# The run works on private copies of the checker, the claim files and the property files, so that work on the
+# engine can go on meanwhile; worktrees live under /root/scratch-verif and are removed at the end.
 set -u
 V="$(cd "$(dirname "$0")/.." && pwd)"
 export GOFLAGS=-mod=mod GOPROXY=off GOSUMDB=off GOTOOLCHAIN=local
 FILTER="${1:-.}"
+JOBS="${2:-3}"
 S=/root/scratch-verif
-rm -rf "$S"; mkdir -p "$S"
+for d in "$S"/wt*; do [ -d "$d" ] && git -C /repo worktree remove --force "$d" 2>/dev/null; done
+rm -rf "$S"; mkdir -p "$S/v/bin" "$S/cases" "$S/res"
 git -C /repo worktree prune
-fail=0; n=0
-run_case() { # name prop expect(viol|silent) patchfile reverse(0|1)
-  local name="$1" prop="$2" expect="$3" patch="$4" rev="$5"
-  [[ "$name" =~ $FILTER ]] || return
-  n=$((n+1))
-  local wt="$S/wt"
-  rm -rf "$wt"; git -C /repo worktree prune
-  git -C /repo worktree add -q --detach "$wt" HEAD || { echo "cannot add worktree"; exit 2; }
-  if [ "$rev" = 1 ]; then
-    git -C "$wt" apply -R "$patch" || { echo "SELFTEST-ERROR $name: reverse patch does not apply"; fail=$((fail+1)); git -C /repo worktree remove --force "$wt"; return; }
-  else
-    git -C "$wt" apply "$patch" || { echo "SELFTEST-ERROR $name: patch does not apply"; fail=$((fail+1)); git -C /repo worktree remove --force "$wt"; return; }
-  fi
-  local out; out=$("$V/bin/govc" check --repo "$wt" --verif "$V" --out "$S/out" --prop "$prop" 2>&1); local rc=$?
-  local nv; nv=$(echo "$out" | grep -c '^VIOLATION')
-  local replayed; replayed=$(echo "$out" | grep '^VIOLATION' | grep -vc 'no-failing-input-found')
-  if [ "$expect" = viol ]; then
-    if [ "$rc" = 1 ] && [ "$nv" -gt 0 ]; then echo "ok   $name: $prop reports $nv violation(s), $replayed replayed on the real code"
-    else echo "MISS $name: $prop stayed silent (rc=$rc)"; fail=$((fail+1)); fi
-  else
-    if [ "$rc" = 0 ]; then echo "ok   $name: $prop silent"
-    else echo "FALSE-ALARM $name: $prop rc=$rc"; echo "$out" | grep '^VIOLATION' | head -3; fail=$((fail+1)); fi
-  fi
-  git -C /repo worktree remove --force "$wt"
-}
-# (a1) reverse of every fix commit listed in selftest/fixes.txt:  <commit> <property>
+cp "$V/bin/govc" "$S/v/bin/govc"; cp -r "$V/claims" "$V/props" "$V/known_findings.json" "$S/v/"
+
+# case list: name|prop|expect|patchfile|reverse
+n=0
+add_case() { n=$((n+1)); printf '%s|%s|%s|%s|%s\n' "$1" "$2" "$3" "$4" "$5" > "$S/cases/$(printf %03d $n)"; }
 while read -r commit prop rest; do
   [ -z "${commit:-}" ] && continue
   case "$commit" in \#*) continue;; esac
-  git -C /repo show "$commit" --format= -- . > "$S/fix.diff"
-  run_case "revert-$commit" "$prop" viol "$S/fix.diff" 1
+  [[ "revert-$commit" =~ $FILTER ]] || continue
+  git -C /repo show "$commit" --format= -- . > "$S/fix-$commit.diff"
+  add_case "revert-$commit" "$prop" viol "$S/fix-$commit.diff" 1
 done < "$V/selftest/fixes.txt"
-# (a2) hand-written regressions
 for f in "$V"/selftest/mustfail/*/*.diff; do [ -e "$f" ] || continue
-  prop=$(basename "$(dirname "$f")"); run_case "mustfail-$prop-$(basename "$f" .diff)" "$prop" viol "$f" 0; done
-# (b) harmless refactors
+  prop=$(basename "$(dirname "$f")"); name="mustfail-$prop-$(basename "$f" .diff)"
+  [[ "$name" =~ $FILTER ]] || continue
+  add_case "$name" "$prop" viol "$f" 0; done
 for f in "$V"/selftest/harmless/*/*.diff; do [ -e "$f" ] || continue
-  prop=$(basename "$(dirname "$f")"); run_case "harmless-$prop-$(basename "$f" .diff)" "$prop" silent "$f" 0; done
+  prop=$(basename "$(dirname "$f")"); name="harmless-$prop-$(basename "$f" .diff)"
+  [[ "$name" =~ $FILTER ]] || continue
+  add_case "$name" "$prop" silent "$f" 0; done
+
+run_case() {
+  local file="$1" S=/root/scratch-verif
+  IFS='|' read -r name prop expect patch rev < "$file"
+  local id; id=$(basename "$file")
+  local wt="$S/wt$id"
+  git -C /repo worktree add -q --detach "$wt" HEAD 2>/dev/null || { echo "SELFTEST-ERROR $name: cannot add worktree" > "$S/res/$id"; return; }
+  local ok=1
+  if [ "$rev" = 1 ]; then git -C "$wt" apply -R "$patch" 2>/dev/null || ok=0; else git -C "$wt" apply "$patch" 2>/dev/null || ok=0; fi
+  if [ "$ok" = 0 ]; then echo "SELFTEST-ERROR $name: patch does not apply" > "$S/res/$id"; git -C /repo worktree remove --force "$wt"; return; fi
+  local out rc; out=$("$S/v/bin/govc" check -j 5 --repo "$wt" --verif "$S/v" --out "$S/out$id" --prop "$prop" 2>&1); rc=$?
+  local nv replayed; nv=$(echo "$out" | grep -c '^VIOLATION'); replayed=$(echo "$out" | grep '^VIOLATION' | grep -vc 'no-failing-input-found')
+  if [ "$expect" = viol ]; then
+    if [ "$rc" = 1 ] && [ "$nv" -gt 0 ]; then echo "ok   $name: $prop reports $nv violation(s), $replayed replayed on the real code" > "$S/res/$id"
+    else echo "MISS $name: $prop stayed silent (rc=$rc)" > "$S/res/$id"; fi
+  else
+    if [ "$rc" = 0 ]; then echo "ok   $name: $prop silent" > "$S/res/$id"
+    else { echo "FALSE-ALARM $name: $prop rc=$rc"; echo "$out" | grep '^VIOLATION' | head -3; } > "$S/res/$id"; fi
+  fi
+  git -C /repo worktree remove --force "$wt"; rm -rf "$S/out$id"
+}
+export -f run_case
+ls "$S"/cases/* 2>/dev/null | xargs -P "$JOBS" -I{} bash -c 'run_case {}'
+cat "$S"/res/* 2>/dev/null
+total=$(ls "$S"/cases 2>/dev/null | wc -l)
+bad=$(cat "$S"/res/* 2>/dev/null | grep -c -E '^(MISS|FALSE-ALARM|SELFTEST-ERROR)')
+done_n=$(ls "$S"/res 2>/dev/null | wc -l)
 rm -rf "$S"; git -C /repo worktree prune
-echo "selftest: $n cases, $fail failed"
-[ "$fail" = 0 ]
+echo "selftest: $total cases, $done_n finished, $bad failed"
+[ "$bad" = 0 ] && [ "$done_n" = "$total" ]
